@@ -138,3 +138,18 @@ CHECKS["C34"] = dict(
         dict(pkg=ENC, run="^TestC34_ThresholdAndSplitKeys$", quick=300, thorough=30000),
     ],
 )
+TXN = "0chain.net/chaincore/transaction"
+CHECKS["C30"] = dict(
+    level="exploration", engine="E2",
+    technique="property-based testing of the acceptance pipeline with generated single-field tamperings (hash kept or recomputed) and generated client-cache states",
+    level_text="Signed transactions of every type with boundary values go through the real receive pipeline (wire decode, ComputeProperties, Validate); each case then applies one generated tampering, with the hash either left as signed or recomputed by the attacker, under a generated state of the client cache; acceptance of a tampered transaction is a violation unless it is the listed known finding for that field.",
+    level_note="The pipeline is decode + ComputeProperties + Validate as the put-transaction handler runs it; time tolerance uses the real clock (creation date = now - 0..3 s).",
+    parts=[dict(pkg=TXN, run="^TestC30_SignatureBindsFields$", quick=3000, thorough=300000, floor=100)],
+)
+CHECKS["C29"] = dict(
+    level="exploration", engine="E2",
+    technique="property-based testing: generated blocks through the receive pipeline, generated single-field tamperings with and without attacker-side hash recomputation",
+    level_text="Signed blocks with signed transactions go through wire encode/decode, ComputeProperties and Validate; each case applies one tampering from a table covering every effect-relevant field of the statement; the oracle requires the recomputed hash to move and the receive pipeline to reject. Fields the hash does not cover are reported per field.",
+    level_note="Generator keys are derived; the registry of known miners is the real node registry. Tampering of a transaction's own content is C30's subject; here transactions are replaced, dropped, duplicated, reordered or given another output hash.",
+    parts=[dict(pkg=BLK, run="^TestC29_HashCommitsToContents$", quick=1500, thorough=150000, floor=100)],
+)
